@@ -20,6 +20,7 @@ Project distribution.
 """
 import collections
 import functools
+import importlib.util
 import json
 import logging
 import pathlib
@@ -267,6 +268,8 @@ class Manifest(collections.namedtuple('Manifest', 'name, version, package, modul
         """
         path = self.path(path)
         path.parent.mkdir(parents=True, exist_ok=True)
+        # bytecode compiled from a previous manifest is validated by mtime (seconds) and size only
+        pathlib.Path(importlib.util.cache_from_source(str(path))).unlink(missing_ok=True)
         with path.open('w') as manifest:
             manifest.write(
                 self.TEMPLATE.substitute(
